@@ -370,7 +370,27 @@ HDR_POOL = [
 ]
 
 
+# user headers with the reserved names in the spellings _make_header strips (lower / UPPER case) or overwrites (_DTYPE,
+# _VERSION), and lower-case _dtype / _version, which survive harmlessly: in particular the header dicts that
+# sfile.read(other_file, header=True) returns for a file of the OTHER form (the pass-through idiom
+# `data, hdr = sfile.read(f1, header=True); sfile.write(f2, data, header=hdr)`).  Mixed-case spellings (_Delim, _Size)
+# are not generated: on HEAD they survive into the file and are then found by the case-insensitive _match_key
+# (reported; outside the statement as C01's user_key_ok already says).
+RESERVED_HDRS = [
+    {"_DELIM": ",", "_DTYPE": [("x", "i4"), ("y", "f8", (2,))], "_VERSION": "1.0", "_SIZE": 5, "user": "from a csv file"},
+    {"_DELIM": "\t", "_DTYPE": [("id", "i8")], "_VERSION": "1.0", "_SIZE": 1, "k": "THE END"},
+    {"_DELIM": " ", "_SIZE": 12, "n": 3},
+    {"_delim": ",", "_size": 9, "_nrows": 9, "_shape": (3, 3), "_has_fields": True, "keep": [1, 2]},
+    {"_DTYPE": [("x", "<i4"), ("y", ">f8", (2,))], "_VERSION": "1.0", "_SIZE": 7, "user": "from a binary file"},
+    {"_DTYPE": "f8", "_VERSION": "0.9", "_NROWS": 4, "_SHAPE": (2, 2), "_HAS_FIELDS": False},
+    {"_dtype": [("q", "f8")], "_version": "0.5", "_SIZE": 1, "_DELIM": ",", "z": None},
+    {"_SIZE": 0}, {"_DELIM": ","}, {"_delim": None},
+]
+
+
 def gen_header(r):
+    if r.random() < 0.25:
+        return r.choice(RESERVED_HDRS)
     if r.random() < 0.7:
         return r.choice(HDR_POOL)
     h = {}
@@ -543,6 +563,19 @@ def adversarial(r, textual, dl):
         if i == 2:
             b.fn(False, h={"restart": True}); b.read()
     cs.append(b.case("adv:interleaved:" + tag))
+    # headers carrying reserved names (pass-through of the header of a file of the other form): on creation (function and
+    # class form, and through an object opened 'r+' on a missing path), on appends and later writes (ignored)
+    for i, h in enumerate(RESERVED_HDRS[:7]):
+        b = B()
+        how = i % 3
+        if how == 0:
+            b.fn(False, h=h)
+        elif how == 1:
+            b.create(h=h); b.again(h=RESERVED_HDRS[(i + 1) % 7]); b.close()
+        else:
+            b.reopen(); b.again(h=h); b.close()
+        b.read(); b.fn(True, h=RESERVED_HDRS[(i + 3) % 7]); b.read(); b.reopen(); b.again(h=h); b.read("same"); b.close(); b.read()
+        cs.append(b.case("adv:reserved-header:%d:%s" % (i, tag)))
     if SAME_HANDLE_READS:
         b = B(); b.fn(False, h={"same": 1}); b.reopen(); b.read("same"); b.again(); b.read("same"); b.again(); b.again(); b.read("same")
         b.close(); b.read(); cs.append(b.case("adv:same-handle-read:" + tag))
@@ -984,9 +1017,13 @@ def contract_table(case, texts):
     import numpy as np
     import esutil.sfile as sfile
     table, fails = {}, []
+    last_reopen_dl = None
     for o, t in zip(case["ops"], texts):
+        if o["k"] == "reopen":
+            last_reopen_dl = o["dl"]
         if t is None:
             continue
+        eff_dl = last_reopen_dl if o["k"] == "again" else o.get("dl")     # the delimiter of the object that made this header
         text = t["text"]
         joined = " ".join(text.split("\n"))
         ent = {"joined": joined, "delim": None, "dtype": None, "u": canon_user({}).hex(), "b": False, "c": False}
@@ -1003,7 +1040,7 @@ def contract_table(case, texts):
             ent["u"] = canon_user(val).hex()
             # (c): what the operation says it creates
             ch = case["chunks"][o["c"]] if "c" in o else None
-            ent["c"] = (ch is not None and ent["dtype"] == file_dtype(dl, ch["dtype"]) and (dl is None or isinstance(dl, str))
+            ent["c"] = (ch is not None and dl == eff_dl and ent["dtype"] == file_dtype(dl, ch["dtype"]) and (dl is None or isinstance(dl, str))
                         and ent["u"] == canon_user(t["hdr"]).hex())
         except Exception as e:  # noqa
             ent["error"] = "%s: %s" % (type(e).__name__, str(e)[:120])
@@ -1426,6 +1463,8 @@ def run(ctx, replay=None):
         for t in bad[:3]:
             fails.append({"pformat_text": t, "monitor": {"a": False}})
     for f in fails[:5]:
-        ctx.violation("CONTRACT MONITOR header_ok failed (assumption of the model about pprint.pformat/eval/numpy.dtype, not a defect "
-                      "of esutil): clauses %s" % sorted(k for k, v in f["monitor"].items() if not v),
+        ctx.violation("CONTRACT MONITOR header_ok failed: the header text the code produced is not framing-safe (a), does not evaluate "
+                      "back to the formatted dict (b), or does not carry the delimiter / dtype / user entries of the operation that "
+                      "created it (c) - a premise of the C03 theorems; (a)/(b) concern pformat/eval, (c) with a failing-input replay "
+                      "next to it is a defect of _make_header: clauses %s" % sorted(k for k, v in f["monitor"].items() if not v),
                       dict(f, kind="contract-monitor", affected_theorems=["C03_history", "C03_step_refines"]), found_input=False)
